@@ -3586,12 +3586,9 @@ impl<'a, E: quiver_core::effects::Effect> Compiler<'a, E> {
                     self.codegen.add_instruction(Instruction::Pop);
                 }
                 self.codegen.add_instruction(Instruction::Load(param_local));
-                let (accessed_type, accessed_prov) = self.compile_accessor(
-                    param_type,
-                    access.accessors,
-                    "$",
-                    Provenance::Parameter,
-                )?;
+                let param_prov = scopes::function_parameter_provenance(&self.scopes);
+                let (accessed_type, accessed_prov) =
+                    self.compile_accessor(param_type, access.accessors, "$", param_prov)?;
 
                 if let (true, Some(val_type)) = (is_callable, value_type) {
                     let ty =
@@ -4175,12 +4172,9 @@ impl<'a, E: quiver_core::effects::Effect> Compiler<'a, E> {
                         let (param_type, param_local) =
                             scopes::get_function_parameter(&self.scopes)?;
                         self.codegen.add_instruction(Instruction::Load(param_local));
-                        let (accessed_type, accessed_prov) = self.compile_accessor(
-                            param_type,
-                            access.accessors,
-                            "$",
-                            Provenance::Parameter,
-                        )?;
+                        let param_prov = scopes::function_parameter_provenance(&self.scopes);
+                        let (accessed_type, accessed_prov) =
+                            self.compile_accessor(param_type, access.accessors, "$", param_prov)?;
                         self.record_typed(
                             ref_span,
                             accessed_type,
